@@ -183,38 +183,128 @@ def bounded_instances(e, B, positive=True, depth=0):
   return e if positive else z3.Not(e)
 
 
-def find_model(eng, ob, B=9, max_len=6):
-  """-> (model or None, text).  First the exact query, then bounded instantiation."""
+def _collect_arrays(ob):
+  seen_arrays = {}
+  seen = set()
+  def collect(e):
+    stack = [e]
+    while stack:
+      x = stack.pop()
+      if x.get_id() in seen:
+        continue
+      seen.add(x.get_id())
+      if z3.is_const(x) and z3.is_array(x) and x.decl().name().startswith('H_'):
+        seen_arrays[x.decl().name()] = x
+      if z3.is_quantifier(x):
+        stack.append(x.body())
+      else:
+        stack.extend(x.children())
+  for h in ob.hyps:
+    collect(h)
+  collect(ob.goal)
+  return seen_arrays
+
+
+def canonical_shape(eng, entry, max_len):
+  """Symmetry breaking for counter-model search: the receiver gets id 1, its container
+  fields and their reference items get consecutive ids (no aliasing among them).  Models with
+  aliasing are excluded, so this is tried first and dropped if unsatisfiable."""
+  cons = []
+  nid = [0]
+  def fresh():
+    nid[0] += 1
+    return nid[0]
+  params = eng.entry_params or {}
+  root = params.get('self')
+  if root is None or not isinstance(root, V) or root.ty.k != 'ref':
+    for nm, v in params.items():
+      if isinstance(v, V) and v.ty.k in ('list', 'deque'):
+        root = v
+        break
+  if root is None or not isinstance(root, V):
+    return cons, 4
+  rid = fresh()
+  cons.append(root.t == rid)
+  def expand_container(ty, cid):
+    if ty.k not in ('list', 'deque'):
+      return
+    ety = ty.args[0]
+    ln = entry.get(eng.ckey(ty, 'len'))
+    if ln is not None:
+      cons.append(z3.Select(ln, z3.IntVal(cid)) <= max_len)
+    if ety.k == 'ref' and not ety.opt:
+      a = entry.get(eng.ckey(ty, 'items'))
+      if a is not None:
+        for k in range(0, max_len + 1):
+          cons.append(z3.Select(z3.Select(a, z3.IntVal(cid)), z3.IntVal(k)) == fresh())
+  if root.ty.k == 'ref':
+    for c in eng.mro(root.ty.name):
+      ci = eng.class_info(c)
+      for fname, fty in sorted(ci.fields.items()):
+        if fty.k in ('list', 'deque', 'set', 'dict') and not fty.opt:
+          a = entry.get(eng.fkey(c, fname))
+          if a is None:
+            continue
+          cid = fresh()
+          cons.append(z3.Select(a, z3.IntVal(rid)) == cid)
+          expand_container(fty, cid)
+  else:
+    expand_container(root.ty, rid)
+  return cons, nid[0]
+
+
+def find_model(eng, ob, max_len=7):
+  """-> (model or None, text).  Exact query first; then finite instantiation of the
+  quantifiers, with and without canonical naming of the receiver's containers."""
   text = ''
+  entry = eng.old_stack[0][0] if eng.old_stack else {}
   s = z3.Solver()
-  s.set('timeout', 15000)
+  s.set('timeout', 10000)
   s.add(*ob.hyps)
   s.add(z3.Not(ob.goal))
-  entry = eng.old_stack[0][0] if eng.old_stack else {}
-  small = []
-  for key, a in entry.items():
-    if key.endswith('.len') and key != '$alloc':
-      for v in range(0, B + 1):
-        small.append(z3.Select(a, z3.IntVal(v)) <= max_len)
-  if '$alloc' in entry:
-    small.append(entry['$alloc'] <= B - 3)
-  s.push()
-  s.add(*small)
   r = s.check()
-  text += 'exact query with small-size constraints: %s\n' % r
+  text += 'exact query: %s\n' % r
   if r == z3.sat:
     return s.model(), text + 'model is exact (satisfies every quantified hypothesis)\n'
-  s.pop()
-  s2 = z3.Solver()
-  s2.set('timeout', 120000)
-  for h in ob.hyps:
-    s2.add(bounded_instances(h, B, True))
-  s2.add(bounded_instances(ob.goal, B, False))
-  s2.add(*small)
-  r = s2.check()
-  text += 'bounded instantiation over [-1,%d], list lengths <= %d: %s\n' % (B, max_len, r)
-  if r == z3.sat:
-    return s2.model(), text + 'candidate model (quantifiers instantiated on a finite range: must be confirmed by replay)\n'
+  arrays = _collect_arrays(ob)
+  for canonical in (True, False):
+    shape, nids = canonical_shape(eng, entry, max_len) if canonical else ([], 6)
+    B = max(nids + 3, max_len + 1)
+    small = list(shape)
+    if '$alloc' in entry:
+      small.append(entry['$alloc'] <= B - 1)
+      small.append(entry['$alloc'] >= nids)
+    for key, a in entry.items():
+      if key.endswith('.len'):
+        for v in range(0, B + 1):
+          small.append(z3.Select(a, z3.IntVal(v)) <= max_len)
+    for nm, a in arrays.items():
+      key = nm[2:].split('!')[0]
+      if canonical or not eng.key_holds_refs(key):
+        continue
+      so = a.sort()
+      if so.range() == I:
+        for v in range(0, B + 1):
+          small.append(z3.And(z3.Select(a, z3.IntVal(v)) >= 0, z3.Select(a, z3.IntVal(v)) <= B))
+      elif so.range().kind() == z3.Z3_ARRAY_SORT and so.range().range() == I and so.range().domain() == I:
+        for v in range(0, B + 1):
+          for k in range(0, max_len + 1):
+            t = z3.Select(z3.Select(a, z3.IntVal(v)), z3.IntVal(k))
+            small.append(z3.And(t >= 0, t <= B))
+    for nm, v in (eng.entry_params or {}).items():
+      if isinstance(v, V) and v.ty.is_reflike and v.ty.k not in ('str', 'any', 'fn') and v.t is not None:
+        small.append(z3.And(v.t >= 0, v.t <= B))
+    s2 = z3.Solver()
+    s2.set('timeout', 60000 if canonical else 180000)
+    for h in ob.hyps:
+      s2.add(bounded_instances(h, B, True))
+    s2.add(bounded_instances(ob.goal, B, False))
+    s2.add(*small)
+    r = s2.check()
+    text += 'finite instantiation over [-1,%d], list lengths <= %d, %s: %s\n' % (
+      B, max_len, 'canonical naming' if canonical else 'free naming', r)
+    if r == z3.sat:
+      return s2.model(), text + 'candidate model (quantifiers instantiated on a finite range: must be confirmed by replay)\n'
   return None, text
 
 
@@ -231,5 +321,12 @@ def extract_witness(eng, ob, extra_terms=None):
     except Exception as e:
       params[name] = 'dump failed: %s' % e
   w = {'params': params, 'objects': d.objects}
+  ch = []
+  for nm, v in getattr(ob, 'choices', []) or []:
+    try:
+      ch.append({'extern': nm, 'value': d.dump(v)})
+    except Exception as e:
+      ch.append({'extern': nm, 'value': 'dump failed: %s' % e})
+  w['choices'] = ch
   text += 'model:\n' + str(model)[:6000]
   return w, text
